@@ -841,19 +841,26 @@ def readFragLoop {σ} (hook : ObjHook σ) (req : ReadReq) :
           let resp := tagResp raw
           match resp.p.data with
           | none =>
-              -- `value_bytes` stays None: the loop ends (status is not 6), `all(responses)` is false
-              (w1, .ok (failedResp "One or more fragment responses failed", .none, none))
+              -- `value_bytes` stays None: the loop ends (status is not 6), `all(responses)` is false;
+              -- `if response.error:` (evaluated for the log line) may raise on a truncated extended status
+              match resp.error with
+              | .error e => (w1, .error e)
+              | .ok _ => (w1, .ok (failedResp "One or more fragment responses failed", .none, none))
           | some d =>
               let (ty, vb) := Cl.splitTyped d
               if resp.p.serviceStatus == some Gen.INSUFFICIENT_PACKETS then
                 let (seq', d') := w1.drv.nextSeq
                 readFragLoop hook req fuel { w1 with drv := d' } seq' (offset + vb.length) (acc ++ vb) (allOk && resp.valid)
-              else if allOk && resp.valid then
-                -- final_response.parse_value() over all value bytes
-                match parseReadReply (ty ++ acc ++ vb) req.info req.elements with
-                | .ok (v, dt) => (w1, .ok (resp, v, some dt))
-                | .error _ => (w1, .ok ({ resp with p := { resp.p with err := some .parseFailed }, valid := false }, .none, none))
-              else (w1, .ok (failedResp "One or more fragment responses failed", .none, none))
+              else
+                match resp.error with
+                | .error e => (w1, .error e)
+                | .ok _ =>
+                  if allOk && resp.valid then
+                    -- final_response.parse_value() over all value bytes
+                    match parseReadReply (ty ++ acc ++ vb) req.info req.elements with
+                    | .ok (v, dt) => (w1, .ok (resp, v, some dt))
+                    | .error _ => (w1, .ok ({ resp with p := { resp.p with err := some .parseFailed }, valid := false }, .none, none))
+                  else (w1, .ok (failedResp "One or more fragment responses failed", .none, none))
 
 /-- logix_driver.py:1420 `_send_write_fragmented(request)`: every segment is sent; `all(responses)` and the last response -/
 def writeFragSend {σ} (hook : ObjHook σ) (req : WriteReq) :
